@@ -175,7 +175,13 @@ class C20(Check):
         if k == "scale":
             out = []
             for d in (2, 3):
-                for vals in ("equal", "equal-negative", "different", "one-different", "tiny-difference-clear", "zero-first", "zero-last", "all-zero"):
+                import itertools
+
+                names = ["equal", "equal-negative", "all-zero"]
+                # the odd factor (different, barely different, zero) at EVERY position, and every order of distinct factors
+                names += ["%s@%d" % (k, pos) for k in ("one-different", "tiny-difference-clear", "zero") for pos in range(d)]
+                names += ["different-perm%d" % j for j in range(len(list(itertools.permutations(range(d)))))]
+                for vals in names:
                     for container in ("ndarray", "list", "tuple"):
                         out.append(("factory", d, vals, container))
                 for s in (2.5, -1.5, 0.0, 1):
@@ -465,22 +471,29 @@ class C20(Check):
         from menpo.transform import NonUniformScale, Scale, UniformScale
 
         _, d, vals, container = op
-        v = {
-            "equal": [1.75] * d,
-            "equal-negative": [-2.0] * d,
-            "different": [0.5 + 0.75 * i for i in range(d)],
-            "one-different": [2.0] * (d - 1) + [2.5],
-            "tiny-difference-clear": [3.0] * (d - 1) + [3.01],
-            "zero-first": [0.0] + [1.5] * (d - 1),
-            "zero-last": [1.5] * (d - 1) + [0.0],
-            "all-zero": [0.0] * d,
-        }[vals]
+        import itertools
+
+        def odd_at(base, odd, pos):
+            out = [base] * d
+            out[pos] = odd
+            return out
+
+        if "@" in vals:
+            kind, pos = vals.split("@")
+            v = {"one-different": odd_at(2.0, 2.5, int(pos)), "tiny-difference-clear": odd_at(3.0, 3.01, int(pos)), "zero": odd_at(1.5, 0.0, int(pos))}[kind]
+        elif vals.startswith("different-perm"):
+            perm = list(itertools.permutations(range(d)))[int(vals[len("different-perm"):])]
+            v = [0.5 + 0.75 * i for i in perm]
+        else:
+            v = {"equal": [1.75] * d, "equal-negative": [-2.0] * d, "all-zero": [0.0] * d}[vals]
         arg = np.array(v) if container == "ndarray" else list(v) if container == "list" else tuple(v)
         try:
             s, exc = Scale(arg), None
         except ValueError as e:
             s, exc = None, e
-        self.note("factory:%s" % vals)
+        self.note("factory:%s" % vals.split("@")[0].rstrip("0123456789"))
+        if "@" in vals and d == 3 and vals.endswith("@1"):
+            self.note("factory:odd-factor-in-the-middle")
         if not verify:
             return []
         where = "Scale"
@@ -575,7 +588,7 @@ class C20(Check):
 
     # ------------------------------------------------------------------ reporting
     def vacuity(self, notes, stats):
-        need = ["turn:wraps", "turn:plain", "axis-angle:3d-negative", "axis-angle:3d-positive", "axis-angle:2d-negative", "axis-angle:2d-non-negative", "quat:grid", "quat:half-turn", "quat:near-half-turn", "about:rotate-deg", "about:rotate-rad", "about:shear-deg", "about:transform-other", "about:transform-homogeneous", "factory:zero-first", "factory:equal", "factory:one-different", "tcoords:corners", "tcoords:inverse"]
+        need = ["turn:wraps", "turn:plain", "axis-angle:3d-negative", "axis-angle:3d-positive", "axis-angle:2d-negative", "axis-angle:2d-non-negative", "quat:grid", "quat:half-turn", "quat:near-half-turn", "about:rotate-deg", "about:rotate-rad", "about:shear-deg", "about:transform-other", "about:transform-homogeneous", "factory:zero", "factory:all-zero", "factory:equal", "factory:one-different", "factory:tiny-difference-clear", "factory:different-perm", "factory:odd-factor-in-the-middle", "tcoords:corners", "tcoords:inverse"]
         return ["outcome %s never produced" % n for n in need if not notes.get(n)]
 
     def rule(self):
